@@ -709,6 +709,10 @@ class Gen:
                 cond = L.fn("exists", self.nonterm(cond)) if cond["k"] != "term" else L.fn("yes")
             comps.insert(r.randint(0, len(comps)), L.err(self.href_any()))
             comps.insert(r.randint(1, len(comps)), r.choice([L.fn("skip", cond), L.when(cond, L.fn("skip")), L.fn("skip")]))
+        if "errors" in self.groups and r.random() < 0.2:
+            # an error raised by what last() triggers: on a file that ends in a blank record only the last() components run
+            # (Matcher._do_lasts), and what they raise is handled under the policy like an error on any other line
+            comps.append(L.when(L.fn("last"), L.assign(L.var(self.fresh("x")), L.fn("mod", L.term(r.choice([5, 7])), L.term(0)))))
         if "validity" in self.groups and r.random() < 0.3:
             # the verdict as of the current line, recorded line by line next to whatever fails the file: valid() is true until the
             # line on which the file fails, failed() from that line on
@@ -812,6 +816,8 @@ def make_case(rng, tid, *, groups=("core",), AND=None, max_rows=8, modes=False):
         AND = True if "errors" in groups else rng.random() < 0.7     # with an error the line does not match: stated for AND
     g = Gen(rng, fs, AND=AND, groups=groups)
     prog = g.program()
+    if "errors" in groups and fs.records and fs.records[-1] != [] and rng.random() < 0.25:
+        fs.records.append([])       # errors on a file that ends in a blank record
     if rng.random() < 0.15:
         # a standalone csvpath: the cross-path signals are plain stop / skip / advance / fail on the csvpath that executes them
         ren = {"stop": "stop_all", "skip": "skip_all", "advance": "advance_all", "fail": "fail_all"}
